@@ -7,6 +7,8 @@ Static clauses:
   F-REQUIRES the traversals through which an IR reports the keys it requires (find_params -> Apply::params over
             Composite::components) visit every component of every IR node (rule T1 of C06 restricted to those methods): a key
             the interface declares for a construct in a burn block, a reference, .. is then also reported by the embedded IR
+  F-SHADOW  a payload-free built-in symbol (`fees`) is never inserted into a scope after names taken from the program: the
+            later insertion wins, so a parameter of that name would resolve to the built-in while the interface declares it
   F-EMBED   the IR embedded for transaction T is to_bytes(ws.tir(T.name)) - the IR Workspace::lower stored under that name -
             with the version string returned by the same to_bytes call
   WIRE      decode(embedded bytes) is structurally the lowered IR (rule WIRE of C11, re-run here)
